@@ -195,6 +195,11 @@ fn check(prop: &'static str, tier: Tier) -> i32 {
     );
     if !agg.other_props.is_empty() {
         println!("  (violations attributed to other properties seen in these runs: {:?})", agg.other_props);
+        if std::env::var("VSIM_VERBOSE").is_ok() {
+            for (k, d) in &agg.other_details {
+                println!("    {} — {}", k, d);
+            }
+        }
     }
     if unknown > 0 {
         1
